@@ -240,6 +240,13 @@ bool PeriodicExportingMetricReader::CollectAndExportOnce()
     task_thread->join();
   }
 
+  // A cycle whose collection timed out did not export anything: it must not complete a pending
+  // ForceFlush. The flush sequence is published by the next cycle that runs to completion.
+  if (cancel_export_for_timeout.load(std::memory_order_acquire))
+  {
+    return false;
+  }
+
   std::uint64_t notified_sequence = force_flush_notified_sequence_.load(std::memory_order_acquire);
   while (notify_force_flush > notified_sequence)
   {
